@@ -152,10 +152,14 @@ def levels(tier: str) -> list[dict]:
             L.append(dict(label=f'rs/{kind}/n={n},val<={m}', module=M, fn='h_judge', kwargs=dict(n=n, m=m, impl='rs', kind=kind, prof='meta_s', valprof='val_s'), budget_s=bud, required=n <= 3, twin=(n == 3 and kind == 'positive')))
     for kind in ('positive', 'negative'):
         L.append(dict(label=f'rs/{kind}/ssubst-polarity/n=5,val<=3', module=M, fn='h_judge', kwargs=dict(n=5, m=3, impl='rs', kind=kind, prof='meta_ss', valprof='val_ss'), budget_s=bud, required=True, twin=False))
-    if not q:
-        for kind in ('e_fresh', 's_fresh', 'positive', 'negative'):
-            for n in (3, 4):
-                L.append(dict(label=f'rs/{kind}/full/n={n},val<=2', module=M, fn='h_judge', kwargs=dict(n=n, m=2, impl='rs', kind=kind, prof='meta_full', valprof='val_full'), budget_s=bud, required=False, twin=False))
+    # every constructor and both kinds of variable in pattern and value (the kind-specific profiles above go deeper)
+    for kind in ('e_fresh', 's_fresh', 'positive', 'negative'):
+        for n in ([2, 3] if q else [2, 3, 4]):
+            L.append(dict(label=f'rs/{kind}/full/n={n},val<={2 if q else 3}', module=M, fn='h_judge', kwargs=dict(n=n, m=2 if q else 3, impl='rs', kind=kind, prof='meta_full', valprof='val_full'), budget_s=bud, required=n <= 3, twin=False))
+        if kind in ('positive', 'negative'):
+            L.append(dict(label=f'rs/{kind}/full/n=3,val<=3', module=M, fn='h_judge', kwargs=dict(n=3, m=3, impl='rs', kind=kind, prof='meta_full', valprof='val_full'), budget_s=bud, required=True, twin=False))
+    for n in ([1, 2, 3] if q else [1, 2, 3, 4]):
+        L.append(dict(label=f'py/e_fresh/full/n={n},val<={2 if q else 3}', module=M, fn='h_judge', kwargs=dict(n=n, m=2 if q else 3, impl='py', kind='e_fresh', prof='meta_full', valprof='val_full'), budget_s=bud, required=n <= 3, twin=False))
     for n in ([3, 4] if q else [3, 4, 5]):
         L.append(dict(label=f'py/notation/partial-instantiate-of-open-bodies/n={n}', module=M, fn='h_notation', kwargs=dict(n=n, prof='meta_raw'), budget_s=bud, required=n <= 4, twin=False))
     for n in ([2, 3] if q else [2, 3, 4]):
